@@ -44,6 +44,23 @@ void FiberQueue::NotifyOne() {
     }
   }
 #endif
+#ifdef YACLIB_VERIF
+  if (auto* f = verif::GetHooks().on_pick) {
+    std::uint64_t ids[64];
+    int n = 0;
+    for (auto* first = _queue.GetElement(0, false); n != 64;) {
+      auto* node = _queue.GetElement(static_cast<std::size_t>(n), false);
+      if (node == nullptr || (n != 0 && node == first)) {
+        break;
+      }
+      ids[n++] = static_cast<FiberBase*>(static_cast<BiNodeWaitQueue*>(node))->GetId();
+    }
+    auto* picked = static_cast<FiberBase*>(static_cast<BiNodeWaitQueue*>(PollRandomElementFromList(_queue)));
+    f(1, ids, n, picked->GetId());
+    ScheduleAndRemove(picked);
+    return;
+  }
+#endif
   auto* fiber = static_cast<FiberBase*>(static_cast<BiNodeWaitQueue*>(PollRandomElementFromList(_queue)));
   ScheduleAndRemove(fiber);
 }
